@@ -62,7 +62,7 @@ CONSTANTS Sizes,      \* <<s1, .., sN>>, 2 <= N <= 5, sizes 1..3
           Errs,       \* sequence over {"q", "std", "stderr"}   (passed through; spread bands are not lines)
           Pals,       \* sequence of BOOLEAN: palette given      (passed through)
           Dens,       \* sequence of BOOLEAN: bins_density
-          Bins,       \* sequence over {"auto", "n4", "nN", "e1", "e3"} (hist) / <<"na">>
+          Bins,       \* sequence over {"auto", "n4", "nN", "e1", "e3", "eu"} (hist) / <<"na">>
           HistAll,    \* BOOLEAN (hist): also assignments that leave no dim to bin over (each slice one sample)
           Stride, Sub, Seed, \* sampling: keep 1/Sub of the assignments and 1/Stride of the case numbers
           Bug         \* "none" | "domBeforeDrop" | "swapRowCol" | "maskYOnly" | "joinInverted"
@@ -231,24 +231,32 @@ YAt(P, ynull, aggregated, meth) ==
 
 ISqrt(h) == CHOOSE k \in 0..h : k * k <= h /\ (k + 1) * (k + 1) > h
 
-(* bin edges  e_k = (e0 + k w) / den, k = 0..nb,  from the non-null samples V; H = length of the binned dim *)
+(* bin edges  e_k = (e0 + k w + q k (k + 1)) / den, k = 0..nb:  q = 0 equally spaced (computed from the     *)
+(* non-null samples V for bins=None|int; H = length of the binned dim), q = 1 explicit edges -1, 1, 5, 11, 19, *)
+(* ... of widths 2, 4, 6, 8, ... (kind "eu": unequally spaced, all odd, so no even sample sits on an edge)     *)
+NbUnequal == CHOOSE k \in 1..(NCells + 1) : k * (k + 1) > 2 * NCells - 1 /\ (k - 1) * k <= 2 * NCells - 1
 BinsFor(kind, V, H) ==
     LET nbi == CASE kind = "auto" -> Min({Max({3, ISqrt(H)}), 50})
                  [] kind = "n4" -> 4
                  [] OTHER -> NCells
-    IN  CASE kind = "e1" -> [e0 |-> -1, w |-> 2, den |-> 1, nb |-> NCells, edges |-> TRUE]
-          [] kind = "e3" -> [e0 |-> -1, w |-> 6, den |-> 1, nb |-> (NCells + 2) \div 3, edges |-> TRUE]
-          [] OTHER -> [e0 |-> Min(V) * nbi, w |-> Max(V) - Min(V), den |-> nbi, nb |-> nbi, edges |-> FALSE]
-BinOf(b, v) == LET u == v * b.den - b.e0 IN IF u = b.w * b.nb THEN b.nb ELSE u \div b.w + 1
+    IN  CASE kind = "e1" -> [e0 |-> -1, w |-> 2, q |-> 0, den |-> 1, nb |-> NCells, edges |-> TRUE]
+          [] kind = "e3" -> [e0 |-> -1, w |-> 6, q |-> 0, den |-> 1, nb |-> (NCells + 2) \div 3, edges |-> TRUE]
+          [] kind = "eu" -> [e0 |-> -1, w |-> 0, q |-> 1, den |-> 1, nb |-> NbUnequal, edges |-> TRUE]
+          [] OTHER -> [e0 |-> Min(V) * nbi, w |-> Max(V) - Min(V), q |-> 0, den |-> nbi, nb |-> nbi, edges |-> FALSE]
+Edge(b, k) == b.e0 + k * b.w + b.q * k * (k + 1)
+BinOf(b, v) == LET x == v * b.den
+               IN  IF x = Edge(b, b.nb) THEN b.nb
+                   ELSE IF b.q = 0 THEN (x - b.e0) \div b.w + 1
+                   ELSE CHOOSE k \in 1..b.nb : Edge(b, k - 1) <= x /\ x < Edge(b, k)
 (* a sample exactly on an interior edge computed by np.linspace: either neighbouring bin is acceptable *)
 BinTie(b, V) == (~b.edges) /\ \E v \in V : LET u == v * b.den - b.e0 IN u % b.w = 0 /\ u > 0 /\ u < b.w * b.nb
-(* points <<centre num, centre den, y num, y den>>: counts, or count / (n * width) *)
+(* points <<centre num, centre den, y num, y den>>: counts, or count / (n * width of that bin) *)
 HistPts(b, V, density) ==
     LET n == Cardinality(V)
-        dn == density
     IN  [k \in 1..b.nb |->
             LET c == Cardinality({v \in V : BinOf(b, v) = k})
-            IN  <<2 * b.e0 + (2 * k - 1) * b.w, 2 * b.den, IF dn THEN c * b.den ELSE c, IF dn THEN n * b.w ELSE 1>>]
+                wk == Edge(b, k) - Edge(b, k - 1)
+            IN  <<Edge(b, k - 1) + Edge(b, k), 2 * b.den, IF density THEN c * b.den ELSE c, IF density THEN n * wk ELSE 1>>]
 
 -----------------------------------------------------------------------------
 (* The oracle: what the property demands, computed from an input i alone *)
@@ -303,7 +311,7 @@ Init ==
     /\ crd = [t \in {<<d>> : d \in Dims} |-> [j \in 1..Sizes[t[1]] |-> j]]
     /\ live = Cells
     /\ dom = [p \in Props |-> <<>>]
-    /\ unm = {} /\ aggd = {} /\ hb = [e0 |-> 0, w |-> 1, den |-> 1, nb |-> 0, edges |-> FALSE]
+    /\ unm = {} /\ aggd = {} /\ hb = [e0 |-> 0, w |-> 1, q |-> 0, den |-> 1, nb |-> 0, edges |-> FALSE]
     /\ offs = {} /\ it = 0 /\ draws = <<>> /\ verdict = NoVerdict
 
 (* `if (self.hue is not None) and (self.color is None)`: hue (and its order) becomes color *)
